@@ -309,7 +309,7 @@ def gen_c02(tier, seed):
     for pixel in PIX:
         wide = PIX[pixel][3] == 32
         nc = PIX[pixel][1]
-        for cpu in ("Sse4_1", "Avx2"):
+        for cpu in ("None", "Sse4_1", "Avx2"):
             # ---------------- horizontal
             # quick: 7 taps, rows 4+1 with offset 1 (four-row block + leftover row, non-zero offset)
             cases = [("q1", "quick", [5] if wide else [7], 1, 1, 1), ("q4", "quick", [3] if wide else [5], 4, 1, 1)]
